@@ -99,6 +99,35 @@ WAVE2 = {
  "C20-C": (["C08", "C20"], False, "the half C_part2 alone is reported by C08-R3 (integer x0 truncated in place) and judged real"),
  "C20-D": (["C07"], False, "reported by C07-R2 (the seed option is never applied)"),
 }
+# wave 3 (ids *-E interprocedural, *-F state over time, *-G numeric / dtype): what the checks of commit 271c305 reported
+# when the changes arrived (tools/wave3_arrival.json, produced by tools/quick_patch_check.sh over the 57 patches)
+WAVE3 = json.load(open(os.path.join(HERE, "tools", "wave3_arrival.json")))
+WAVE3_NOTE = {
+ "C03-F": "C03-R4: no call that can still raise the noise level after the reserve is decided",
+ "C03-G": "C13-R4: sympy identity of the snapped mesh tolerance",
+ "C13-G": "C13-R4: sympy identity of the snapped mesh tolerance",
+ "C04-E": "analysis error (incumbent update discovered by its store of self.u); discovery made robust, C04-R1 reports the missing store",
+ "C04-F": "C04-R4: the deterministic fsd = 0 carries no guard beyond the noise level",
+ "C05-F": "C05-R7 / C19-R1: a swap assigns all of yval / fval / fsd",
+ "C09-F": "C09-R7 / C16-R6: operands of the thinning mask are computed from the current arrays",
+ "C09-G": "C09-R8: size of the high-density subset >= 1 at N = 1 (constant folding)",
+ "C11-E": "C11-R6: internal boxes are g(<pristine copy of the bound>)",
+ "C12-E": "analysis error (record call located by positional argument count); parameter roles are read off the stores and calls bound by name, C12-R3 reports the swapped positional call in add()",
+ "C12-G": "C12-R6: integer-truncating operators on values not proven float",
+ "C14-E": "C14-R7: the filter projects exactly when its flag is set",
+ "C15-G": "NOT DECIDED: floating-point cancellation in the distance (numeric; the periodic branch of the unchanged code uses the same expansion)",
+ "C17-E": "analysis error in all checks (constraint callable stored through a wrapper); discovery made robust, C02-R5 / C17-R4 added",
+ "C17-F": "NOT DECIDED: rests on the known finding C17-R2 and on the surrogate's numerical state",
+ "C18-E": "C01-R6 / C18-R8: helpers do not write into arrays they are handed",
+ "C18-F": "C18-R10: survivor selection on every path of a generation",
+ "C18-G": "C18-R9: ranked values carry the acquisition's provenance",
+ "C19-E": "C19-R7: self.x0 does not may-alias a constructor argument",
+ "C20-E": "C20-R7: option names handed to the dict unchanged",
+ "C08-G": "reported by C01 only on arrival; C08-R3 dtype dataflow now follows numpy's promotion through broadcast_to",
+ "C13-F": "reported by C04 / C05 only on arrival; C13-R6 added",
+ "C16-E": "reported by C15 only on arrival; C16-R7 added",
+ "C16-F": "reported by C15 only on arrival; C16-R6 added",
+}
 import re
 def needs_from_notes(sid):
     f = os.path.join(HERE, "seeded", sid, "NOTES.md")
@@ -138,7 +167,19 @@ for sid in sorted(os.listdir(os.path.join(HERE, "seeded"))):
         nt = needs_from_notes(sid)
         if nt:
             m["needs_to_manifest"] = nt
-    if sid in WAVE2:
+    if sid in WAVE3:
+        w = WAVE3[sid]
+        m["wave"] = 3
+        m["reported_on_arrival_by"] = w["reported_on_arrival_by"]
+        if w["analysis_error_on_arrival"]:
+            m["analysis_error_on_arrival"] = w["analysis_error_on_arrival"]
+        m["missed_when_it_arrived"] = not w["reported_on_arrival_by"]
+        if sid in WAVE3_NOTE:
+            m["strengthening"] = WAVE3_NOTE[sid]
+        nt = needs_from_notes(sid)
+        if nt:
+            m["needs_to_manifest"] = nt
+    elif sid in WAVE2:
         arr, missed, note = WAVE2[sid]
         m["reported_on_arrival_by"] = arr
         m["missed_when_it_arrived"] = missed
